@@ -344,3 +344,42 @@ func VerifC13StreamRetry() {
 	}
 	zzverif.Cover("done")
 }
+
+// VerifC13Order: the workers of a partitioned scan finish in any order: three keys in three
+// pieces, an unlimited range read (or count) whose partition workers are interleaved at the
+// engine's operations within the delay bound — a later piece's worker may finish before an earlier
+// one's. The result is the unpartitioned result, in key order. Natively (where the workers'
+// goroutines cannot be steered) the read is repeated.
+func VerifC13Order() {
+	w := vNewWorld(3)
+	w.create("k0", vNames[0])
+	w.create("k1", vNames[1])
+	w.create("k2", vNames[2])
+	zzverif.WaitIdle()
+	p := &vPartitioner{w: w}
+	p.borders = [][]byte{w.b.coder.EncodeObjectKey(vNames[2], 0), w.b.coder.EncodeObjectKey(vNames[1], 0)} // "/r/a-b" < "/r/a/b"
+	w.s.Partitions = p.partitions
+	rg := vRanges[0]
+	rounds := 1
+	if !zzverif.Symbolic() {
+		rounds = zzverif.Param("native_rounds", 60)
+	}
+	what := zzverif.Choose("read", 2)
+	for i := 0; i < rounds; i++ {
+		done := make(chan struct{}, 1)
+		w.s.Yield = zzverif.YieldAt
+		zzverif.ExploreSchedules(zzverif.Param("preempt", 1))
+		zzverif.Go("reader", func() {
+			if what == 0 {
+				w.checkList(rg[0], rg[1], 0, 0)
+			} else {
+				w.checkCount(rg[0], rg[1])
+			}
+			done <- struct{}{}
+		})
+		<-done
+		zzverif.StopExploring()
+		w.s.Yield = nil
+	}
+	zzverif.Cover("done")
+}
